@@ -126,31 +126,8 @@ theorem pbf_framing_any_header_size (first : Bool) (hdr blob rest : Bytes)
     (h0 : 0 < hdr.length) (h1 : hdr.length ≤ 65536)
     (hb : PbfFraming.blobSize first hdr = some blob.length)
     (h2 : blob.length ≤ PbfFraming.maxUncompressedBlobSize) :
-    nextBlob first (be32 hdr.length ++ hdr ++ blob ++ rest) = some (some (blob, rest)) := by
-  have hlen : (be32 hdr.length).length = 4 := rfl
-  have hrd : rdBe32 (be32 hdr.length ++ (hdr ++ blob ++ rest)) = hdr.length :=
-    rdBe32_be32 _ (by simp only [Nat.reducePow]; omega) _
-  have hdrop : (be32 hdr.length ++ (hdr ++ blob ++ rest)).drop 4 = hdr ++ blob ++ rest := by
-    rw [List.drop_left' hlen]
-  have e : be32 hdr.length ++ hdr ++ blob ++ rest = be32 hdr.length ++ (hdr ++ blob ++ rest) := by
-    simp [List.append_assoc]
-  rw [e]
-  unfold nextBlob
-  have hl4 : ¬ (be32 hdr.length ++ (hdr ++ blob ++ rest)).length < 4 := by
-    simp only [List.length_append, hlen]; omega
-  have hmax : ¬ hdr.length > PbfFraming.maxBlobHeaderSize := by
-    have : PbfFraming.maxBlobHeaderSize = 65536 := by decide
-    omega
-  have hz : (hdr.length == 0) = false := by rw [beq_eq_false_iff_ne]; omega
-  have hshort : ¬ (hdr ++ blob ++ rest).length < hdr.length := by simp only [List.length_append]; omega
-  have htake : (hdr ++ blob ++ rest).take hdr.length = hdr := by
-    rw [List.append_assoc, List.take_left' rfl]
-  have hdrop2 : (hdr ++ blob ++ rest).drop hdr.length = blob ++ rest := by
-    rw [List.append_assoc, List.drop_left' rfl]
-  have h2' : ¬ blob.length > PbfFraming.maxUncompressedBlobSize := by omega
-  have hshort2 : ¬ (blob ++ rest).length < blob.length := by simp only [List.length_append]; omega
-  simp only [hl4, ↓reduceIte, hrd, hdrop, hmax, hz, Bool.false_eq_true, hshort, htake, hb, hdrop2, h2', hshort2,
-    List.take_left' rfl, List.drop_left' rfl]
+    nextBlob first (be32 hdr.length ++ hdr ++ blob ++ rest) = some (some (blob, rest)) :=
+  nextBlob_framed first hdr blob rest h0 h1 hb h2
 
 /- non-vacuity of the hypotheses (a header of 166 bytes = type + 150 bytes of indexdata + datasize, the F5
    trigger, and headers up to 65 5xx bytes) is exercised on the real code by tools/props/c02_pbf.py
